@@ -62,7 +62,44 @@ CONFIGS = {
   # three waiters of equal priority arriving at different times and a fourth process that reshuffles the list and signals
   "cond4o": dict(np=4, prio=[0, 0, 0, 0], auto=[1, 1, 1, 1], nres=1, poolcap=1, maxlen=3, maxtime=4,
                alphabet=[I("hold", 1), I("cwait", 2), I("prio", 3, 1), I("prio", 1, 1), I("intr", 1, 9, 0), I("csig")],
-               roles=[["hold", "cwait"], ["hold", "cwait"], ["hold", "cwait"], ["hold", "prio", "intr", "csig"]], replay_quick=5000),
+               roles=[["hold", "cwait"], ["hold", "cwait"], ["hold", "cwait"], ["hold", "prio", "intr", "csig"]]),
+  # a preemptor whose priority is lowered while it waits; a newcomer of a priority in between takes what the holder frees
+  "pool3p": dict(np=3, prio=[3, 2, 1], auto=[1, 1, 1], nres=1, poolcap=2, maxlen=4, maxtime=4,
+               alphabet=[I("hold", 1), I("pacq", 1), I("pacq", 2), I("prel", 1), I("prel", 2), I("ppre", 1), I("ppre", 2), I("prio", 2, 0)],
+               roles=[["hold", "pacq", "prel", "prio"], ["hold", "ppre", "prel"], ["hold", "pacq", "prel"]]),
+  # a process part-way through a pool acquisition is thrown out of it by a preemption of a RESOURCE it holds; a waiter is behind it
+  "lost3x": dict(np=3, prio=[0, 0, 1], auto=[1, 1, 1], nres=1, poolcap=2, maxlen=3, maxtime=4,
+               alphabet=[I("hold", 1), I("acq", 1), I("pre", 1), I("rel", 1), I("pacq", 1), I("pacq", 2), I("prel", 1), I("intr", 1, 9, 0)],
+               roles=[["hold", "acq", "pacq", "rel"], ["hold", "pacq", "prel"], ["hold", "pacq", "pre", "intr", "prel"]]),
+  # recording switched on (and off) while the other process is blocked inside a get (rec2w) / a put (rec2v) on that object
+  "rec2w": dict(np=2, prio=[0, 0], auto=[1, 1], nres=1, poolcap=1, bufcap=2, oqcap=1, pqcap=1, maxlen=3, maxtime=4,
+               alphabet=[I("hold", 1), I("rec", 8, 1), I("rec", 6, 1), I("rec", 4, 1), I("rec", 8, 0), I("pqput", 1, 0), I("qput", 5), I("bput", 1), I("pqget"), I("qget"), I("bget", 1)],
+               roles=[["hold", "pqget", "qget", "bget"], ["hold", "rec", "pqput", "qput", "bput"]]),
+  "rec2v": dict(np=2, prio=[0, 0], auto=[1, 1], nres=1, poolcap=1, bufcap=1, oqcap=1, pqcap=1, maxlen=3, maxtime=4,
+               alphabet=[I("hold", 1), I("rec", 8, 1), I("rec", 6, 1), I("rec", 4, 1), I("rec", 6, 0), I("pqput", 1, 0), I("qput", 5), I("bput", 1), I("pqget"), I("qget"), I("bget", 1)],
+               roles=[["hold", "pqput", "qput", "bput"], ["hold", "rec", "pqget", "qget", "bget"]]),
+  # the "x3" family: P1 is inside a (possibly multi-step) call on one object while holding resource 1, P2 queues behind it,
+  # P3 (higher priority) disturbs: interrupt, stop, priority changes, preemption of the resource P1 holds
+  "x3pool": dict(np=3, prio=[0, 0, 1], auto=[1, 1, 1], nres=1, poolcap=2, maxlen=3, maxtime=4,
+               alphabet=[I("hold", 1), I("acq", 1), I("pre", 1), I("pacq", 1), I("pacq", 2), I("prel", 1), I("ppre", 1), I("intr", 1, 9, 0), I("stop", 1, 5),
+                         I("prio", 1, 2), I("prio", 2, 2), I("tadd", 1, -5)],
+               roles=[["hold", "acq", "pacq", "tadd"], ["hold", "pacq", "prel"], ["hold", "pacq", "ppre", "pre", "intr", "stop", "prio"]]),
+  "x3buf": dict(np=3, prio=[0, 0, 1], auto=[1, 1, 1], nres=1, poolcap=1, bufcap=2, maxlen=3, maxtime=4,
+               alphabet=[I("hold", 1), I("acq", 1), I("pre", 1), I("bput", 1), I("bput", 3), I("bget", 1), I("bget", 3), I("intr", 1, 9, 0), I("stop", 1, 5),
+                         I("prio", 2, 2), I("tadd", 1, -5)],
+               roles=[["hold", "acq", "bput", "bget", "tadd"], ["hold", "bput", "bget"], ["hold", "bput", "bget", "pre", "intr", "stop", "prio"]]),
+  "x3q": dict(np=3, prio=[0, 0, 1], auto=[1, 1, 1], nres=1, poolcap=1, oqcap=1, pqcap=1, maxlen=3, maxtime=4,
+               alphabet=[I("hold", 1), I("acq", 1), I("pre", 1), I("qput", 5), I("qget"), I("pqput", 1, 1), I("pqget"), I("intr", 1, 9, 0), I("stop", 1, 5),
+                         I("prio", 2, 2), I("tadd", 1, -5)],
+               roles=[["hold", "acq", "qput", "qget", "pqput", "pqget", "tadd"], ["hold", "qput", "qget", "pqput", "pqget"], ["hold", "qget", "pqget", "pre", "intr", "stop", "prio"]]),
+  "x3res": dict(np=3, prio=[0, 0, 1], auto=[1, 1, 1], nres=1, poolcap=1, maxlen=3, maxtime=4,
+               alphabet=[I("hold", 1), I("acq", 1), I("rel", 1), I("pre", 1), I("intr", 1, 9, 0), I("intr", 2, 9, 0), I("stop", 1, 5), I("stop", 2, 5),
+                         I("prio", 1, 2), I("prio", 2, 2), I("tadd", 1, -5), I("wproc", 1)],
+               roles=[["hold", "acq", "rel", "tadd"], ["hold", "acq", "rel", "tadd", "wproc"], ["hold", "pre", "rel", "intr", "stop", "prio"]]),
+  "x3cond": dict(np=3, prio=[0, 0, 1], auto=[1, 1, 1], nres=1, poolcap=1, maxlen=3, maxtime=4,
+               alphabet=[I("hold", 1), I("acq", 1), I("rel", 1), I("pre", 1), I("cwait", 0), I("cwait", 2), I("setflag", 0, 1), I("csig"), I("csub", 0), I("intr", 1, 9, 0),
+                         I("stop", 1, 5), I("prio", 2, 2), I("tadd", 1, -5), I("tadd", 1, 7), I("ccancel", 1), I("cremove", 2)],
+               roles=[["hold", "acq", "cwait", "tadd"], ["hold", "cwait", "rel", "acq"], ["hold", "pre", "setflag", "csig", "csub", "intr", "stop", "prio", "ccancel", "cremove"]]),
   # subscribe / unsubscribe: is a release forwarded exactly while the condition is registered?
   "cond2u": dict(np=2, prio=[0, 0], auto=[1, 1], nres=1, poolcap=1, maxlen=5, maxtime=4,
                alphabet=[I("hold", 1), I("cwait", 2), I("csub", 0), I("cunsub", 0), I("acq", 1), I("rel", 1)]),
@@ -98,11 +135,11 @@ FOR_PROPERTY = {
   "C11": (["buf2"], ["buf3"]),
   "C12": (["queue2"], ["queue3"]),
   "C13": (["cond2", "cond3s", "cond2u"], ["cond3"]),
-  "C14": (["rec2q", "rec2pq"], ["rec2", "rec2p", "rec2b"]),
+  "C14": (["rec2q", "rec2pq", "rec2w", "rec2v"], ["rec2", "rec2p", "rec2b"]),
   "C05": (["mutex2"], ["mutex2p", "mutex3", "lost2"]),
   "C06": (["order3", "cond4o"], ["order3e", "pool3"]),
-  "C07": (["pool2"], ["pool3"]),
-  "C08": (["lost2"], ["lost3", "pool2", "mutex2p"]),
+  "C07": (["pool2", "pool3p"], ["pool3"]),
+  "C08": (["lost2", "lost3x"], ["lost3", "pool2", "mutex2p"]),
   "C09": (["end2"], ["end3", "restart2", "wait2r"]),
 }
 
@@ -231,19 +268,33 @@ def conformance(pid, name, trace, v):
         f.write("SPECIFICATION CSpec\nCONSTANTS\n  NP = %d\n  Prio0 <- c_Prio0\n  Auto <- c_Auto\n  NRes = %d\n  PoolCap = %d\n"
                 "  BufCap = %d\n  OqCap = %d\n  PqCap = %d\n  UEvs <- c_UEvs\n  Alphabet <- c_Alphabet\n  Roles <- c_Roles\n  MaxLen = %d\n  MaxTime = %d\nCHECK_DEADLOCK FALSE\n"
                 % (cfg["np"], cfg["nres"], cfg["poolcap"], cfg.get("bufcap", 2), cfg.get("oqcap", 1), cfg.get("pqcap", 1), cfg["maxlen"], cfg["maxtime"]))
+    from concurrent.futures import ThreadPoolExecutor
+    import checks.kcommon as kcommon
+    parts = kcommon.split_trace(trace)
+
+    def one(part):
+        path, off = part
+        r = vlib.tlc(pid, mod, mod + ".cfg", workers=1, timeout=3000, env={"TRACE": path}, tag="kconf_%s_%s" % (name, os.path.basename(path)[-6:]),
+                     heap="12g" if len(parts) == 1 else "4g", extra=["-noGenerateSpecTE"])
+        if r.rc != 0 or "CONSUMED" not in r.out:
+            raise vlib.MachineryError("kernel conformance run failed (%s):\n%s" % (name, r.out[-3000:]))
+        return r, off
     try:
-        r = vlib.tlc(pid, mod, mod + ".cfg", workers=1, timeout=3000, env={"TRACE": trace}, tag="kconf_" + name, heap="12g",
-                     extra=["-noGenerateSpecTE"])
+        with ThreadPoolExecutor(max_workers=min(len(parts), max(1, vlib.NCPU - 2))) as ex:
+            results = list(ex.map(one, parts))
     finally:
         for ext in (".tla", ".cfg"):
             try:
                 os.remove(os.path.join(vlib.SPEC, mod + ext))
             except OSError:
                 pass
-    if r.rc != 0 or "CONSUMED" not in r.out:
-        raise vlib.MachineryError("kernel conformance run failed (%s):\n%s" % (name, r.out[-3000:]))
-    v.add_tlc(r, "KernelConf.tla: model vs recorded events, exported programs of %s" % name)
-    drifts = re.findall(r'<<\s*"DRIFT",\s*(\d+),\s*"([^"]*)",\s*"([^"]*)"\s*>>', r.out)
+        for path, _ in parts:
+            if path != trace:
+                os.remove(path)
+    drifts = []
+    for i, (r, off) in enumerate(results):
+        v.add_tlc(r, "KernelConf.tla: model vs recorded events, exported programs of %s%s" % (name, "" if len(parts) == 1 else " (part %d of %d)" % (i + 1, len(parts))))
+        drifts += [(str(int(a) + off), b, c) for a, b, c in re.findall(r'<<\s*"DRIFT",\s*(\d+),\s*"([^"]*)",\s*"([^"]*)"\s*>>', r.out)]
     with open(trace) as f:
         nprog = sum(1 for line in f if line.startswith('{"e":"Prog"'))
     return nprog, drifts
@@ -259,7 +310,7 @@ def model_check(pid, v, tier, out):
     for name in names:
         r, cfg, progs = run_config(pid, name, v, simulate=SIMULATE.get(name))
         total = len(progs)
-        cap = cfg.get("replay_quick", 1500) if tier == "quick" else 20000
+        cap = cfg.get("replay_quick", 12000) if tier == "quick" else 400000
         if total > cap:
             step = total // cap + 1
             progs = progs[vlib.seed() % step::step]
